@@ -226,6 +226,15 @@ func (res *Resource) AddVersion(version string, available, currentRelease, preRe
 	res.Lock()
 	defer res.Unlock()
 
+	// parse to semver
+	// Versions are stored and compared in their normalized form: "1.0" and
+	// "v1.0.0" are the same version as "1.0.0".
+	sv, err := semver.NewVersion(version)
+	if err != nil {
+		return err
+	}
+	version = sv.String()
+
 	// reset current release flags
 	if currentRelease {
 		for _, rv := range res.Versions {
@@ -244,12 +253,6 @@ func (res *Resource) AddVersion(version string, available, currentRelease, preRe
 
 	// create new version if none found
 	if rv == nil {
-		// parse to semver
-		sv, err := semver.NewVersion(version)
-		if err != nil {
-			return err
-		}
-
 		rv = &ResourceVersion{
 			resource:      res,
 			VersionNumber: sv.String(), // Use normalized version.
